@@ -7,17 +7,17 @@ T = "Trusted: the API-server double (simapi), the kubelet/scheduler/GC model, th
 CHECKS = {
  "C01": ("exploration", "runtime monitors over invocation records (simulated API server, real reconcilers) + differential oracle on FilterAndMapPodsByNode",
    "Seeded hostile histories (duplicate pods by hand, Failed/Unknown/terminating/unscheduled pods, node taint/relabel/removal, canaries) in arbitrary fair reconcile orders; every pod create/delete of every replica-set sync is judged against the cluster state that sync read (eligibility, node free, once per node, duplicate resolution, ineligible clean-up, Unknown untouched); plus 20k generated layouts through the real FilterAndMapPodsByNode and a CheckNodeFitness differential. Held = no rule fired on the invocations observed, antecedent floors reached.",
-   T+"interleavings are sampled (schedule S; thorough adds -race concurrent runs), not enumerated.", "4/C01"),
+   T+"interleavings are sampled (schedule S = atomic reconciles in seeded fair orders, schedule N = reconciles of other controllers nested at the API calls of a running one), not enumerated; the thorough tier runs the same workload in a -race build.", "4/C01"),
  "C02": ("exploration", "bounded-progress monitor: convergence phase after generated histories, fixpoint predicate checked at quiescence",
-   "Liveness restated as bounded progress: after a seeded hostile history (template edits, holds, node churn, misbehaving kubelet, partial rollouts, old-DaemonSet start state) the actors stop, the cooperative kubelet runs and a fixpoint (one Ready live-template pod per eligible node, nothing else, no further pod/RS writes for three rounds) must be reached within 12+4*N*(1+edits) rounds.",
+   "Liveness restated as bounded progress: after a seeded hostile history (template edits, holds, node churn, misbehaving kubelet, partial rollouts, old-DaemonSet start state) the actors stop, the cooperative kubelet runs and a fixpoint (one Ready live-template pod per eligible node, nothing else, no further pod/RS writes for three rounds) must be reached within 12+4*N*(1+edits) rounds (canary wait durations are fast-forwarded, Failed-pod back-off emptied by a controller restart: waiting is not progress). A second engine (schedule E) replaces the round-robin by the repository's own watch handlers and a recording work queue: after one initial enqueue only watch events, requeues and error retries trigger reconciles, and the fixpoint must be reached by a virtual deadline.",
    T+"an unbounded 'eventually' is not decidable by observation; canaries whose replicas cannot be satisfied by the valid nodes are excluded (premise), counted in evidence.", "4/C02"),
  "C03": ("exploration", "differential oracle over real ManageDeployment outputs (exhaustive small multisets, repeated for map order) + budget monitor on every active-role sync of the simulator",
    "Every multiset of the seven node classes for N<=4 (quick) / N<=5 (thorough) and seeded multisets up to N=12, times the maxUnavailable/maxPodSchedulerFailure lattice, each executed 12/24 times through the real ManageDeployment at a virtual instant; budget, cap and unavailable-first judged by an independent oracle.",
    T+"the oracle's reading of 'available' (Ready) and of the stuck-node tolerance; map-order coverage is sampled by repetition.", "4/C03"),
  "C04": ("exploration", "runtime monitors over invocation records during generated canary histories",
-   "Canary-heavy seeded histories (second template change during a canary, replicas as number/percent, node churn, pause/unpause/fail/validate commands, all reconcile orders): every pod create by a non-active up-to-date replica set must target a node of status.canary.nodes as read; the active replica set must not create/delete on canary nodes; canary list growth bounded by the resolved replicas; canary label gone at the post-promotion fixpoint.",
+   "Canary-heavy seeded histories (second template change during a canary, replicas as number/percent, node churn, pause/unpause/fail/validate commands, all reconcile orders): every pod create by a non-active up-to-date replica set must target a node of status.canary.nodes as read; the active replica set must not create/delete on canary nodes; canary list growth bounded by the resolved replicas; canary label present on canary pods while the canary runs and gone at the post-promotion fixpoint; a steady-state phase (manual validation) checks that canary nodes run the new template, every other eligible node keeps a Ready pod of the active template, and nothing of the new template leaks outside status.canary.nodes; schedule N nests other reconciles inside a running one.",
    T+"role is derived from the EDS status the sync read.", "4/C04"),
- "C05": ("exploration", "exhaustive lattice (10368 prepared stores, one real EDS Reconcile each at an exact virtual instant) + promotion monitor on every EDS reconcile of the simulator",
+ "C05": ("exploration", "exhaustive lattice (12960 prepared stores, one real EDS Reconcile each at an exact virtual instant) + promotion monitor on every EDS reconcile of the simulator",
    "The full product of the quantifier (strategy x age vs duration x noRestartsDuration x last restart x pause source x unpause x canary-valid x failed x active present) is enumerated; a switch of status.activeReplicaSet is judged against promotionAllowed (must / must-not / either at the stated equalities).",
    T+"the equality points (age = duration, since-restart = noRestartsDuration) are not judged.", "4/C05"),
  "C06": ("exploration", "differential oracle (canaryVerdict) over the real manageCanaryStatus via verif shim; second call for stickiness",
@@ -27,16 +27,16 @@ CHECKS = {
    "Seeded histories ending in failure (restart storms, kubectl-eds canary fail, while paused or not, before/after the duration elapsed): the rollback writes (spec restored, status.canary cleared, active unchanged) are judged on the invocation, retention (>= 2 min, zero counters) on every delete of a failed replica set, nodes restored and failed RS collected at the convergence fixpoint.",
    T+"a replica set both failed and explicitly validated is an 'either' corner (C05 allows promotion).", "4/C07"),
  "C08": ("exploration", "runtime monitors over invocation records with pause/freeze/canary-pause toggling + status.state check on every EDS status write",
-   "Hold-heavy seeded histories (annotations toggled directly and through the real kubectl-eds bodies, new nodes joining): an active-role sync that read rolling-update-paused=true issues no update deletion, with rollout-frozen=true neither creates nor update-deletes; a canary-role sync that read a paused canary creates nothing; state equals the documented function; resumption is part of the convergence phase.",
+   "Hold-heavy seeded histories (annotations toggled directly and through the real kubectl-eds bodies, new nodes joining): an active-role sync that read rolling-update-paused=true issues no update deletion, with rollout-frozen=true neither creates nor update-deletes; a canary-role sync that read a paused canary creates nothing; state equals the documented function; resumption is part of the convergence phase. Scripted hold scenarios (paused, frozen, both, canary paused before/after its pods; seeded sizes, modes and orders) judge what must still happen while held (pods for nodes that join while only paused), what must not, and resumption within the round bound after the release.",
    T+"'as read' = annotations on the EDS object returned to that sync.", "4/C08"),
  "C09": ("exploration", "differential oracle (rampBound) over calculateMaxCreation via shim and over ManageDeployment's create decisions + spacing monitor in the simulator",
-   "Product of elapsed x interval x additive increase x maxParallelPodCreation x nodes at exact instants; creates of a sync bounded by rampBound measured from the Active condition of the status it was given; spacing of acting syncs >= reconcileFrequency-1s judged on every simulated history.",
+   "Product of elapsed x interval x additive increase x maxParallelPodCreation x nodes at exact instants; creates of a sync bounded by rampBound measured from the Active condition of the status it was given; spacing of acting syncs >= reconcileFrequency-1s and at most maxUnavailable update deletions per sync judged on every simulated history (incl. failing pod calls and bursts of reconciles).",
    T+"non-positive intervals belong to C16.", "4/C09"),
  "C10": ("exploration", "differential oracle over CreatePodFromDaemonSetReplicaSet + compareCurrentPodWithNewPod round trip and single perturbations",
    "20k (quick) / 200k (thorough) seeded (template, node, setting, mode) tuples: pinning in every affinity term, owner, labels, hash, default tolerations, resources precedence, wire round trip judged up to date, every single perturbation judged outdated.",
    T+"a malformed annotation is expected to fall through to setting/template; its being reported is not part of the statement.", "4/C10"),
  "C11": ("fault_enumeration", "fault injection at the client seam: every API call index x {reject, lost reply, stop before, stop after}; safety monitors at every step, final abstract state compared with the failure-free run",
-   "Nine corpus scenarios; the failure-free run is recorded, then re-run once per (call index, fault kind); stop faults void the rest of the invocation and rebuild all reconcilers with empty in-memory state; thorough adds 20k seeded fault pairs.",
+   "Ten corpus scenarios; the failure-free run is recorded, then re-run once per (call index, fault kind); stop faults void the rest of the invocation and rebuild all reconcilers with empty in-memory state; thorough adds 20k seeded fault pairs.",
    T+"process stop is emulated by voiding later calls of the invocation rather than killing goroutines.", "4/C11"),
  "C12": ("exploration", "runtime monitors: every write of every invocation must target an object of the EDS being reconciled; foreign objects never counted/adopted",
    "Two or three ExtendedDaemonSets (same/different names and namespaces), unrelated pods and DaemonSets with overlapping labels, rollouts and canaries in all interleavings; ownership judged per write from the invocation's own reads.",
@@ -46,7 +46,7 @@ CHECKS = {
    T+"'active' for the never-delete rule is the replica set active after the reconcile's own decision.", "4/C13"),
  "C14": ("exploration", "differential oracle (expectedEDSStatus) on prepared stores + on every EDS status write of the simulator + counts at fixpoints",
    "16k prepared stores (up to three replica sets, roles, conditions, annotations) and every simulated EDS status write compared with the documented status function; 0<=available<=ready<=current<=desired on active/canary RS status writes; at quiescence desired/current/ready/available/upToDate equal the counts over nodes and pods.",
-   T+"status.reason is not judged.", "4/C14"),
+   T+"status.reason is judged only where the documented function determines it (reset when the canary is neither paused nor failed).", "4/C14"),
  "C15": ("exploration", "differential oracle over canary node selection through the real EDS Reconcile, with node churn and a second Reconcile",
    "9.6k (quick) / 96k (thorough) seeded node populations x replicas (int, percent) x selector x anti-affinity keys x previous lists; distinct, valid, stable, count max/min, error only when too few valid nodes, least-restarts preference, spreading.",
    T+"one open known finding (stale canary nodes) is listed in known_findings.json.", "4/C15"),
